@@ -142,6 +142,37 @@ def run_case(case, rec):
                       '%s round trip changed %s' % (spec.name, text), case,
                       observed=got.get(arg), expected=exp.get(arg))
         return
+    # the caller owns what was returned: change it, then decode the same
+    # bytes again (a decoder that caches or shares containers shows here)
+    if any(t == 'table' and vals[n] for n, t, _ in spec.args):
+        from ..mon import state
+        n_mut = 0
+        for _id, (path, o) in state.mutable_members(g).items():
+            if isinstance(o, dict):
+                o['__caller_change__'] = 1
+                n_mut += 1
+            elif isinstance(o, list):
+                o.append('__caller_change__')
+                n_mut += 1
+            elif isinstance(o, bytearray):
+                o.extend(b'!')
+                n_mut += 1
+        u2 = common.lib_unmarshal(data)
+        if not u2.ok:
+            rec.violation('second-decode-failed', 'decoding the same bytes '
+                          'again after the caller changed the first result '
+                          '%s' % u2.describe(), case)
+            return
+        d2 = common.compare_values(exp, boundary.method_values(u2.value[2],
+                                                               spec))
+        if d2:
+            rec.violation('second-decode-differs:' + d2[1],
+                          '%s: decoding the same bytes again, after the '
+                          'caller changed the tables of the first result, '
+                          'gives a different value: %s' % (spec.name, d2[2]),
+                          case)
+            return
+        rec.count('decode_mutate_decode_ok')
     rec.count('roundtrips_ok')
     rec.count('why:' + case['why'].split(':')[0])
     for n, t, _ in spec.args:
